@@ -65,6 +65,24 @@ func chainScenarios(tier mc.Tier, p purposeKind, id string) []mc.Scenario {
 // chainPrimed: (purpose, length, leaf key) whose conforming chain this process has already validated once.
 var chainPrimed sync.Map
 
+// errLibraryPanicked stands for "the call did not return at all" (neither an acceptance nor a rejection).
+var errLibraryPanicked = errors.New("the library panicked")
+
+// noPanic runs a library call; a panic is a violation of its own (reported once per call site), not a harness error.
+func noPanic(c *mc.Ctx, id, what string, f func() error) (err error) {
+	defer func() {
+		if r := recover(); r != nil {
+			if he, ok := r.(mc.HarnessError); ok {
+				panic(he)
+			}
+			c.Outcome(what + ":panic")
+			c.Fail(fmt.Sprintf("%s %s panics", id, what), "%v", r)
+			err = errLibraryPanicked
+		}
+	}()
+	return f()
+}
+
 func chainBody(c *mc.Ctx, n int, leafKey string, p purposeKind, id string) {
 	viol, ben := chainMods(n, p)
 	// the conforming chain of this description is validated once per process before any variant of it (so also in a replay
@@ -151,25 +169,32 @@ func chainBody(c *mc.Ctx, n int, leafKey string, p purposeKind, id string) {
 
 	switch p {
 	case purposeCS:
-		expect("ValidateCodeSigningCertChain", wantTime, nx509.ValidateCodeSigningCertChain(chain, d.signingTime))
+		expect("ValidateCodeSigningCertChain", wantTime, noPanic(c, id, "ValidateCodeSigningCertChain", func() error { return nx509.ValidateCodeSigningCertChain(chain, d.signingTime) }))
 		if d.signingTime != nil {
-			expect("ValidateCodeSigningCertChain(nil time)", wantNoTime, nx509.ValidateCodeSigningCertChain(chain, nil))
+			expect("ValidateCodeSigningCertChain(nil time)", wantNoTime, noPanic(c, id, "ValidateCodeSigningCertChain", func() error { return nx509.ValidateCodeSigningCertChain(chain, nil) }))
 		}
 		// the revocation validator demands the same chain (without time)
 		v, err := revocation.NewWithOptions(revocation.Options{OCSPHTTPClient: noNetClient, CertChainPurpose: purpose.CodeSigning})
 		if err != nil {
 			panic(mc.HarnessError{Msg: err.Error()})
 		}
-		res, err := v.ValidateContext(context.Background(), revocation.ValidateContextOptions{CertChain: chain})
+		res, err, vpan := callValidate(v, context.Background(), revocation.ValidateContextOptions{CertChain: chain})
+		if vpan != nil {
+			c.Outcome("revocation:panic")
+			c.Fail(id+" revocation validator panics", "%v", vpan)
+		}
 		expect("revocation(CodeSigning)", wantNoTime, isInvalidChain(err))
 		if err != nil && res != nil {
 			c.Fail(id+" revocation returned results with an error", "results %v with error %v", res, err)
 		}
-		_, err = revocsp.CheckStatus(revocsp.Options{CertChain: chain, CertChainPurpose: purpose.CodeSigning, HTTPClient: noNetClient})
+		err = noPanic(c, id, "ocsp.CheckStatus", func() error {
+			_, e := revocsp.CheckStatus(revocsp.Options{CertChain: chain, CertChainPurpose: purpose.CodeSigning, HTTPClient: noNetClient})
+			return e
+		})
 		expect("ocsp.CheckStatus(CodeSigning)", wantNoTime, isInvalidChain(err))
 		// the timestamping validator on the very same certificates: nothing learnt about a chain under one rule set may leak into the other
 		wantTS, _ := refChainOK(d, purposeTS, false)
-		expect("ValidateTimestampingCertChain(on a code-signing chain)", wantTS, nx509.ValidateTimestampingCertChain(chain))
+		expect("ValidateTimestampingCertChain(on a code-signing chain)", wantTS, noPanic(c, id, "ValidateTimestampingCertChain", func() error { return nx509.ValidateTimestampingCertChain(chain) }))
 		// Sign routes the chain through this validation at the signing time
 		if pki.Supported(kindOf(d.keys[0])) {
 			st := pki.Now
@@ -182,29 +207,41 @@ func chainBody(c *mc.Ctx, n int, leafKey string, p purposeKind, id string) {
 					panic(mc.HarnessError{Msg: err.Error()})
 				}
 				rs := envenc.NewRemoteSigner(pki.K(d.keys[0]), chain)
-				_, err = env.Sign(&signature.SignRequest{
-					Payload:       signature.Payload{ContentType: "application/vnd.cncf.notary.payload.v1+json", Content: []byte(`{"k":"v"}`)},
-					Signer:        rs,
-					SigningTime:   st,
-					SigningScheme: signature.SigningSchemeX509,
+				err = noPanic(c, id, "Sign", func() error {
+					_, e := env.Sign(&signature.SignRequest{
+						Payload:       signature.Payload{ContentType: "application/vnd.cncf.notary.payload.v1+json", Content: []byte(`{"k":"v"}`)},
+						Signer:        rs,
+						SigningTime:   st,
+						SigningScheme: signature.SigningSchemeX509,
+					})
+					return e
 				})
 				expect("Sign("+mt+")", wantTime, err)
 			}
 		}
 	case purposeTS:
-		expect("ValidateTimestampingCertChain", wantNoTime, nx509.ValidateTimestampingCertChain(chain))
+		expect("ValidateTimestampingCertChain", wantNoTime, noPanic(c, id, "ValidateTimestampingCertChain", func() error { return nx509.ValidateTimestampingCertChain(chain) }))
 		v, err := revocation.NewWithOptions(revocation.Options{OCSPHTTPClient: noNetClient, CertChainPurpose: purpose.Timestamping})
 		if err != nil {
 			panic(mc.HarnessError{Msg: err.Error()})
 		}
-		_, err = v.ValidateContext(context.Background(), revocation.ValidateContextOptions{CertChain: chain})
+		err = noPanic(c, id, "revocation validator", func() error {
+			_, e := v.ValidateContext(context.Background(), revocation.ValidateContextOptions{CertChain: chain})
+			return e
+		})
 		expect("revocation(Timestamping)", wantNoTime, isInvalidChain(err))
-		_, err = revocsp.CheckStatus(revocsp.Options{CertChain: chain, CertChainPurpose: purpose.Timestamping, HTTPClient: noNetClient})
+		err = noPanic(c, id, "ocsp.CheckStatus", func() error {
+			_, e := revocsp.CheckStatus(revocsp.Options{CertChain: chain, CertChainPurpose: purpose.Timestamping, HTTPClient: noNetClient})
+			return e
+		})
 		expect("ocsp.CheckStatus(Timestamping)", wantNoTime, isInvalidChain(err))
 		// the same description judged by the code-signing rule set (differential)
 		wantCS, _ := refChainOK(d, purposeCS, false)
 		v2, _ := revocation.NewWithOptions(revocation.Options{OCSPHTTPClient: noNetClient, CertChainPurpose: purpose.CodeSigning})
-		_, err = v2.ValidateContext(context.Background(), revocation.ValidateContextOptions{CertChain: chain})
+		err = noPanic(c, id, "revocation validator", func() error {
+			_, e := v2.ValidateContext(context.Background(), revocation.ValidateContextOptions{CertChain: chain})
+			return e
+		})
 		expect("revocation(CodeSigning) on TSA chain", wantCS, isInvalidChain(err))
 	}
 }
